@@ -434,6 +434,17 @@ type TUnsArrIface struct {
 	kmip.Tag `kmip:"REQUEST_HEADER"`
 	Vs       [2]interface{} `kmip:"BATCH_COUNT"`
 }
+// a type that refers to itself (a tree): legal Go, finite values; the description of the type must not be chased for ever
+type TNode struct {
+	kmip.Tag `kmip:"REQUEST_HEADER"`
+	A        int32   `kmip:"BATCH_COUNT"`
+	Children []TNode `kmip:"ATTRIBUTE"`
+}
+type TNodeHolder struct {
+	kmip.Tag `kmip:"REQUEST_HEADER"`
+	A        int32       `kmip:"BATCH_COUNT"`
+	V        interface{} `kmip:"ATTRIBUTE_VALUE"`
+}
 
 // c13Unsupported: each of them as Encode value (zero and populated) and as Decode target of streams that carry an item where
 // the odd field sits: an error or an orderly result, never a panic
@@ -454,7 +465,8 @@ func c13Unsupported(r *Result) {
 		TUnsSliceAny{S: []float64{1}}, TUnsMapNamed{M: map[string]int{"a": 1}}, TUnsChanSkip{C: make(chan int), A: 1},
 		TUnsIfaceOne{V: int32(7)}, TUnsIfaceMany{Vs: []interface{}{int32(7), int32(8)}}, TUnsIfaceMany{}, TUnsIfaceManyReq{A: "abc", Vs: []interface{}{int32(7)}},
 		TUnsArrI32{}, TUnsArrI32{A: [3]int32{1, 2, 3}}, TUnsArrI32Req{A: [1]int32{1}}, TUnsArrStruct{}, TUnsArrStruct{V: [2]kmip.ProtocolVersion{{Major: 1, Minor: 4}, {Major: 1, Minor: 2}}},
-		TUnsArrBytes{S: [4]byte{1, 2, 3, 4}, A: 1}, TUnsArrText{S: [2]string{"a", "b"}}, TUnsArrIface{}, TUnsArrIface{Vs: [2]interface{}{int32(7), int32(8)}}}
+		TUnsArrBytes{S: [4]byte{1, 2, 3, 4}, A: 1}, TUnsArrText{S: [2]string{"a", "b"}}, TUnsArrIface{}, TUnsArrIface{Vs: [2]interface{}{int32(7), int32(8)}},
+		TNode{}, TNode{A: 1, Children: []TNode{{A: 2}, {A: 3, Children: []TNode{{A: 4}}}}}, TNodeHolder{A: 1, V: TNode{A: 2}}, TNodeHolder{A: 1, V: &TNode{A: 2, Children: []TNode{{A: 3}}}}}
 	for _, v := range values {
 		for _, byPtr := range []bool{false, true} {
 			key := fmt.Sprintf("Encode of %T (pointer=%v) %+v", v, byPtr, v)
